@@ -142,6 +142,10 @@ class Collect(core.ParallelReplay):
 
 
 def replay(case):
+    if case['kind'] == 'custom_spec':
+        from . import c09
+        v = c09.check_custom_spec()
+        return v and '%s: %s' % v[0]
     if case['kind'] == 'enc':
         if case['mode'] == 1:
             r = check_legal(case['evs'], case['data'], 0)
@@ -191,6 +195,11 @@ def run(ctx):
     if recs:
         ctx.sample({'written': {'tracks': recs[len(recs) // 2]['tracks'], 'bytes': recs[len(recs) // 2]['bytes'][14:]}})
     c07.run_random(ctx, 300 if thorough else 60, keyprefix='smfwrite')
+    # a meta type registered through the documented extension point is read and written like the built-in ones
+    from . import c09
+    for key, msg in c09.check_custom_spec():
+        ctx.violation('smfread/' + key, {'kind': 'custom_spec'}, msg)
+    ctx.replayed += 1
     ctx.exhaustive = True
     ctx.constants = {'enc_plans': plans}
     ctx.assumptions += [
